@@ -1,21 +1,23 @@
 SPECIFICATION EGenSpec
 CONSTANTS
   NAddr = 2
-  MaxObj = 8
-  MaxOps = 5
+  MaxObj = 3
+  MaxOps = 3
   MaxInflight = 1
   WithReplace = TRUE
   FixRemove = FALSE
   FixAdd = FALSE
   FixFlag = FALSE
   FixMark = FALSE
-  Policy = "random"
+  Policy = "rr"
   Rise = 1
   Fall = 1
-  MaxRounds = 5
-  MaxConns = 6
-  MaxHalf = 2
+  MaxRounds = 0
+  MaxConns = 1
+  MaxHalf = 1
   WatcherLeaves = {}
-  MaxToggles = 2
-  TargetLen = 14
+  MaxToggles = 0
+  TargetLen = 9
+VIEW EGenView
+ACTION_CONSTRAINT StrataEmit
 CHECK_DEADLOCK FALSE
